@@ -64,8 +64,8 @@ var quickFonts = []string{"debug-cff", "goregular", "gomono",
 	"goregular:cmap=3", "goregular:cmap=4", "gomono:cmap=3",
 }
 var thoroughFonts = []string{"gobold", "goitalic", "gomedium", "gomonobold", "gobolditalic", "gosmallcaps",
-	"synth-ttf:glyphs=65535", "synth-cff:glyphs=20000", "synth-ttf:glyphs=3:glyf=262144",
-	"gomono:glyf=131070", "gomono:glyf=131072", "gobold:glyf=131072", "goitalic:glyf=131072"}
+	"synth-ttf:glyphs=65535", "synth-cff:glyphs=20000", "synth-ttf:glyphs=12:glyf=262144",
+	"synth-ttf:glyphs=3000:glyf=131070", "synth-ttf:glyphs=3000:glyf=131074", "synth-ttf:glyphs=5:glyf=131070"}
 
 // makeFont returns the font to write and, for fonts read from a TrueType
 // file, the original file (whose outlines the written file must reproduce).
@@ -336,10 +336,20 @@ func fontOracle(name string) (obs string, detail, sig string, stats map[string]i
 		d = compareWithXImage(f, out, orig, wantSegs, stats)
 	}()
 	if d != "" {
+		// known defect of the post encoder (C14 post-format2-index-exceeds-65535,
+		// C01 post-format2-more-than-65278-custom-names): with more than 65278
+		// custom glyph names the 16-bit name index wraps, and the names from
+		// glyph 65279 on come back as standard names.  Only this exact shape
+		// carries the finding's signature; any other disagreement keeps sigFont.
+		if f.NumGlyphs() > 65279 && strings.HasPrefix(d, "name of glyph 65279 is ") {
+			return obs, d, sigPostWrap, stats
+		}
 		return obs, d, sigFont, stats
 	}
 	return obs, "", "", stats
 }
+
+const sigPostWrap = "c03-post-format2-name-index-wraps"
 
 func compareWithXImage(f *sfnt.Font, out, orig []byte, wantSegs map[int][]seg, stats map[string]int) string {
 	xf, err := xsfnt.Parse(out)
